@@ -101,9 +101,12 @@ func (w *l1World) compareBridge(ctx sdk.Context, q ophostkeeper.Querier, b *mBri
 	}
 	// paginated listing with a run-chosen page size must give the same list
 	limit := uint64(1 + w.r.Intn(4))
+	if len(b.Outputs) > 40 {
+		limit = uint64(1 + w.r.Intn(64))
+	}
 	var listed []ophosttypes.QueryOutputProposalResponse
 	var key []byte
-	for page := 0; page < 64; page++ {
+	for page := 0; page < len(b.Outputs)+4; page++ {
 		res, err := q.OutputProposals(ctx, &ophosttypes.QueryOutputProposalsRequest{BridgeId: id, Pagination: &query.PageRequest{Key: key, Limit: limit}})
 		if err != nil {
 			return bad("query.output-proposals", "output-proposals-query", ownOutState, "OutputProposals query failed: %v", err)
